@@ -231,6 +231,26 @@ def run_check(pid, reg, tier, seed, replay=None):
     if extra_ax:
         problems.append(("proof", "unexpected axioms reported by Print Assumptions: " + ", ".join(extra_ax)))
 
+    # 1b. thorough tier: independent re-check of the compiled closure with coqchk
+    coqchk_info = {}
+    if tier == "thorough" and rc == 0 and not replay:
+        with Lock("coq"):
+            t1 = time.time()
+            try:
+                rck, cout = sh(["coqchk", "-silent", "-o", "-Q", "theories", "UV", "UV.Props." + pid], cwd=COQ, timeout=P.get("coqchk_timeout", 2400))
+            except subprocess.TimeoutExpired:
+                rck, cout = -1, "coqchk timed out"
+        m = re.search(r"\* Axioms:(.*?)\n\s*\n\* Constants", cout, flags=re.S)
+        ck_ax = [a.strip() for a in (m.group(1).split("\n") if m else []) if a.strip() and a.strip() != "<none>"]
+        coqchk_info = {"cmd": "coqchk -silent -o -Q theories UV UV.Props." + pid, "exit": rck, "axioms": ck_ax, "wall_s": round(time.time() - t1, 1)}
+        if rck == -1:
+            coqchk_info["note"] = "timed out; not counted as a failure"
+        elif rck != 0:
+            problems.append(("proof", "coqchk rejected the compiled closure: " + cout[-800:]))
+        else:
+            bad = [a for a in ck_ax if a.split()[0].split(".")[-1] not in set(x.split(".")[-1] for x in allowed) and a.split()[0] not in allowed]
+            if bad: problems.append(("proof", "coqchk reports axioms outside the allowed list: " + "; ".join(bad[:6])))
+
     # 2. correspondence + oracle on the implementation
     stats = {}
     mism = []
@@ -346,7 +366,7 @@ def run_check(pid, reg, tier, seed, replay=None):
         "distribution": stats.get("distribution", {}), "correspondence_mismatches": len(mism),
         "oracle_failures": len(stats.get("failures") or []), "known_findings_seen": sorted(seen),
         "search_rounds": searched, "gen_changed": gen_changed, "extra": stats.get("extra", {}),
-        "proof_build_s": round(bt, 1), "race": race_info,
+        "proof_build_s": round(bt, 1), "race": race_info, "coqchk": coqchk_info,
     }
     evid["coverage"] = cov
     evid["assumptions"] = P.get("assumes", [])
